@@ -77,4 +77,13 @@ def traces():
                      [{"op": "observe"}, dict(ck, sink="samepath"), {"op": "clobber_source", "how": how}, {"op": "add_slide", "layout": 0},
                       dict(box, op="add_textbox", slide=0, text="after"), ck, dict(ck, sink="samepath"), {"op": "restart", "form": "path_keep"},
                       dict(ck, sink="samepath"), {"op": "restart"}]))
+    # a movie is on the slide; the same clip is added again but its poster frame cannot be read; then save
+    evs = [{"op": "add_slide", "layout": 6}, mv(1), dict(mv(1), psrc=fl), dict(mv(1), psrc={"via": "stream", "pos": 0, "fault": {"kind": "eof", "at": 5}}),
+           dict(mv(2), src={"via": "stream", "pos": 0, "fault": {"kind": "eio", "at": 2}}), ck, {"op": "restart"}, dict(mv(1), psrc=fl), ck, {"op": "restart"}]
+    out.append(T("poster-fault-after-same-clip", [{"deck": "default"}], evs))
+    # one stream kept by the caller and saved into repeatedly while the deck shrinks and grows
+    evs = [dict(ck, sink="reused"), {"op": "remove_layout", "layout": 3}, {"op": "remove_layout", "layout": 4}, {"op": "remove_layout", "layout": 5},
+           dict(ck, sink="reused"), {"op": "add_slide", "layout": 0}, dict(box, op="add_textbox", slide=0, text="grow"), dict(ck, sink="reused"),
+           {"op": "remove_layout", "layout": 2}, dict(ck, sink="reused"), {"op": "restart"}]
+    out.append(T("reused-stream-shrinking-deck", [{"deck": "default"}], evs))
     return out
